@@ -421,7 +421,7 @@ func c11Replay(id int, in c11Input, emit func(any)) error {
 	orders := append([][][2]int{canon}, in.Orders...)
 	bindN := 6
 	if os.Getenv("VERIF_TIER") == "thorough" {
-		bindN = 15
+		bindN = 8
 	}
 	for oi, ord := range orders {
 		if len(ord) != len(reps) {
